@@ -1,4 +1,5 @@
 import BpModel.Proofs.CDecTree
+import BpModel.Proofs.OpMode
 /-!
 # C06 — the wire is little-endian whatever the host byte order
 
@@ -41,6 +42,13 @@ theorem C06_copier_build_indep (n D S di si : Nat) (hz : ∀ p, di ≤ p → D.t
 theorem C06_leaf (n : Nat) (hn : n ≤ 64) (x : Int) :
     PyRt.Writes (CRt.encLeafAct true n x) (leafBits n x) ∧ PyRt.Writes (CRt.encLeafAct false n x) (leafBits n x) :=
   ⟨CRt.writes_cleaf true n hn x, CRt.writes_cleaf false n hn x⟩
+
+/-- the big-endian branch of optimization-mode output (value-shift items never look at bytes)
+produces and consumes the same wire bytes as the little-endian branch -/
+theorem C06_opmode (t : Ty) (v : Val) (hne : Wire.noExt t = true) (hwf : t.wf = true) (hv : shape t v = true) :
+    Wire.encodeWith (OpMode.encLeaf .cBE) t v = Wire.encodeWith (OpMode.encLeaf .cLE) t v := by
+  rw [Wire.encodeWith_eq_spec (OpMode.encLeaf .cBE) (fun n hn x => OpMode.writes_opLeaf .cBE n hn x) t v hne hwf hv,
+    Wire.encodeWith_eq_spec (OpMode.encLeaf .cLE) (fun n hn x => OpMode.writes_opLeaf .cLE n hn x) t v hne hwf hv]
 
 /-- big-endian detection: `BP_BIG_ENDIAN` is defined exactly when the user predefines it or one of
 the documented compiler macros says big-endian (decision table of lib/c/bitproto.c:16-22) -/
